@@ -18,8 +18,9 @@ halt-clear strobe being those of the whole-device model's control endpoint.
 1. `acm_rx_cycles`, `acm_tx_cycles`, `acm_status_cycles`: the decoded cycle-level outputs are, event by event, the outputs
    of the whole-device model's endpoints, and the final cycle-level states are related to the whole-device model's final
    endpoint states (instances of `C57Cyc.out_cycles_refine` / `in_cycles_refine`; the configuration hypotheses of C12's
-   lemmas — endpoint number ≠ 0, max packet size ≥ 1 (OUT: the SETUP packets of control transfers must pass C13's
-   acceptor: 8 ≤ 64) — are discharged by `decide`).
+   lemmas — endpoint number ≠ 0, max packet size ≥ 1 — are discharged by `decide`; since a002d0d C13's acceptor bounds
+   a packet by the max packet size only in transactions addressed to the endpoint, so SETUP packets and other
+   endpoints' packets pass whatever their length).
 2. `cycle_ghost_eq`: the ghost history (`acked`, `delivered`, `produced`, `kept`, …) computed from the CYCLE-LEVEL wires
    (ACK requests, consumer transfers, producer bytes accepted, NAK / beats / zero-length packets) is the ghost history of
    the event-level run.
